@@ -14,16 +14,20 @@ Trace == ndJsonDeserialize("trace.ndjson")
 Chk(c, prop, aspect, detail) == IF c THEN TRUE ELSE PrintT(<<"VIOL", tid, (IF "i" \in DOMAIN Trace[l] THEN Trace[l].i ELSE 0), prop, aspect, detail>>)
 
 \* blocks: sequence of [path, open, close]; the file itself is the block <<>> from -1 to the end
-Contains(b, off) == b.open < off /\ off <= b.close
+\* a block is the range of its map node: from its opening brace up to, not including, the position after the closing one
+Contains(b, off) == b.open <= off /\ off <= b.close
 Innermost(blocks, off) ==
   LET inside == {i \in 1..Len(blocks) : Contains(blocks[i], off)}
   IN IF inside = {} THEN <<>>
      ELSE blocks[CHOOSE i \in inside : \A j \in inside : blocks[i].close - blocks[i].open <= blocks[j].close - blocks[j].open].path
 \* between a board keyword's brace and a board's brace (layers: { | x: { ) there is no board
-InKeywordGap(gaps, off) == \E i \in 1..Len(gaps) : gaps[i].open < off /\ off <= gaps[i].close /\ ~\E j \in 1..Len(gaps[i].inner) : gaps[i].inner[j].open < off /\ off <= gaps[i].inner[j].close
+InKeywordGap(gaps, off) == \E i \in 1..Len(gaps) : gaps[i].open <= off /\ off <= gaps[i].close /\ ~\E j \in 1..Len(gaps[i].inner) : gaps[i].inner[j].open <= off /\ off <= gaps[i].inner[j].close
 
 Pos(e) ==
   /\ Chk(e.panic = 0, "C42", "board-at-position-crashed", <<e.off, e.msg>>)
+  \* wherever the position is: a reported board is one whose block contains it
+  /\ e.panic = 0 =>
+       Chk(e.got = <<>> \/ \E i \in 1..Len(e.blocks) : e.blocks[i].path = e.got /\ Contains(e.blocks[i], e.off), "C42", "reported-board-does-not-contain-the-position", <<e.off, e.line, e.col, e.got, e.text>>)
   /\ (e.panic = 0 /\ ~InKeywordGap(e.gaps, e.off)) =>
        Chk(e.got = Innermost(e.blocks, e.off), "C42", "reported-board-is-not-the-innermost-block-containing-the-position", <<e.off, e.line, e.col, e.got, Innermost(e.blocks, e.off), e.text>>)
 
